@@ -30,7 +30,7 @@ var specs []*Spec
 // ruleAddenda: what was added to a check after its rule text was written (DESIGN.md section 10); the
 // evidence files quote rule + addendum.
 var ruleAddenda = map[string]string{
-	"docs": "; plus the structured product families of DESIGN.md section 4 (whitespace runs outside and inside containers up to 4,096 bytes, digit runs, every unit length 1..600 and counter-wrap boundaries, number-grammar and escape-pair products, every depth 1..130 and every nest unit as the last opener also at 10,000/10,001, widths and sibling size patterns, first bytes x foreign continuations, every byte value adjacent to special string elements, strings of 100..8,192 bytes and of power-of-two lengths, multi-byte characters that look like whitespace or structure)",
+	"docs": "; plus the structured product families of DESIGN.md section 4 (whitespace runs outside and inside containers up to 4,096 bytes, digit runs, every unit length 1..600 and counter-wrap boundaries, number-grammar and escape-pair products, every depth 1..130 and every nest unit as the last opener also at 10,000/10,001, widths and sibling size patterns, first bytes x foreign continuations, every byte value adjacent to special string elements, strings of 100..8,192 bytes and of power-of-two lengths, multi-byte characters that look like whitespace or structure); record documents (family W11: repeating key sets, confusable keys, repeating columns, pretty-printed layouts) wherever W3 runs",
 	"C01":  "; the Buffer states are nil, fresh, long-lived and one left dirty by handler traversals deeper than the limit; 24 concurrent callers are compared with the same call alone",
 	"C02":  "; four Buffer states; 24 concurrent callers are compared with the same call alone",
 	"C11":  "; four Buffer states, the long-lived one shared with SkipValue; SkipValue successes that need a used Buffer are in scope; concurrent callers compared with the same call alone",
@@ -39,18 +39,18 @@ var ruleAddenda = map[string]string{
 	"C05":  "; every token also as a cap==len copy, a copy with more digits in the spare capacity and with a long tail; long whitespace runs; first bytes x foreign continuations",
 	"C06":  "; long tokens (3,000 and 70,000 bytes), long position sweeps, adjacent-byte sweeps, scratch shapes nil / dirty / lazily grown / 128 KiB with returned strings held across reuse, small dirty destinations for UnescapeStringContent, targets correlated with the raw input",
 	"C07":  "; handlers that find the exact end with SkipValue on the traversal's own Buffer; the handler's own error is a sentinel or a wrapped io.EOF",
-	"C08":  "; the decoders keep a long-lived skip Buffer (which has seen hostile documents) and a long-lived field-name scratch across documents; nullable Decode variants with preset targets",
-	"C09":  "; standard-library and wrapped errors; every fourth program's handler also uses the traversal's own Buffer before it answers",
-	"C10":  "; reader forms primed by a non-empty or a failed read; ValueReader's handler methods called directly",
+	"C08":  "; the decoders keep a long-lived skip Buffer (which has seen hostile documents) and a long-lived field-name scratch across documents; nullable Decode variants with preset targets; direct decoding also through a long-lived ValueReader, all three entry points in either order",
+	"C09":  "; standard-library and wrapped errors; every fourth program's handler also uses the traversal's own Buffer before it answers; structured standard-library errors (*json.UnmarshalTypeError, *strconv.NumError, ...) whose contents are watched; another call on the same document and Buffer before the traversal",
+	"C10":  "; reader forms primed by a non-empty or a failed read; ValueReader's handler methods called directly; every third hostile program re-enters the library from inside the callback with the traversal's own Buffer",
 	"C12":  "; cap==len and baited copies; a DecodeString target stored earlier through the same scratch; a 128 KiB scratch; long tokens; once more on a GOARCH=386 build",
-	"C13":  "; token functions also on cap==len and baited copies; the methods of one long-lived ValueReader in the Read families; long whitespace runs, first bytes x foreign continuations, multi-byte look-alikes",
-	"C14":  "; documents of a history arrive in one refilled input buffer; recursive walkers; every fifth history continues on a Buffer that lives as long as the worker",
-	"C15":  "; results are also compared with the model tree; returned strings are watched too; the caller fills spare capacity and modifies older results; limit-, size- and related-document-themed histories",
-	"C16":  "; the ValueReader's own scratch must not matter (a reader used on every earlier input vs a brand-new one); spare capacity of returned slices overwritten; strings returned without scratch re-read after the input is overwritten; the StdLibCompatible helpers must leave their argument tree alone",
-	"C17":  "; window-straddling characters in long strings; destinations ending in incomplete sequences; 16 concurrent callers compared with the model",
-	"C18":  "; goroutine pairs share arenas of disjoint windows; decoded trees shared read-only are converted concurrently and the copies modified; strings beyond 64 KiB and a 9,000-deep document in the pool",
+	"C13":  "; token functions also on cap==len and baited copies; the methods of one long-lived ValueReader in the Read families; long whitespace runs, first bytes x foreign continuations, multi-byte look-alikes; the inputs live in read-only pages",
+	"C14":  "; documents of a history arrive in one refilled input buffer; recursive walkers; every fifth history continues on a Buffer that lives as long as the worker; forced garbage collections between the calls of one history in 37",
+	"C15":  "; results are also compared with the model tree; returned strings are watched too; the caller fills spare capacity and modifies older results; limit-, size- and related-document-themed histories; forced garbage collections between the calls of one history in 13; record-themed histories; same-length sibling documents through the refilled input buffer",
+	"C16":  "; the ValueReader's own scratch must not matter (a reader used on every earlier input vs a brand-new one); spare capacity of returned slices overwritten; strings returned without scratch re-read after the input is overwritten; the StdLibCompatible helpers must leave their argument tree alone; same-length sibling documents through a refilled input buffer",
+	"C17":  "; window-straddling characters in long strings; destinations ending in incomplete sequences; 16 concurrent callers compared with the model; the spare capacity of the helpers' results overwritten; sequences of long strings around every power of two from 256 to 131,072 in one tree",
+	"C18":  "; goroutine pairs share arenas of disjoint windows; decoded trees shared read-only are converted concurrently and the copies modified; strings beyond 64 KiB and a 9,000-deep document in the pool; record documents in the pool",
 	"C19":  "; in-place unescaping; inputs in the caller's stack frame; skipping handlers that share the traversal's Buffer",
-	"C20":  "; a handler collecting all strings in one destination; nullable string fields; mixed entry points on one Buffer and on one reader",
+	"C20":  "; a handler collecting all strings in one destination; nullable string fields; mixed entry points on one Buffer and on one reader; content-flavoured families (invalid UTF-8 below deep nesting, slow-path numbers in bulk, integers around the int64 limit)",
 }
 
 func register(s *Spec) {
